@@ -21,7 +21,7 @@ RULE = ("Generated: (units) a portfolio spec over all asset classes (contracts, 
         "prices and per-volume costs stay. Oracle (a) the assembled c,l,u,A,b,cType are equal (rtol 1e-9, no solver); "
         "(a') in 1 of 2 cases the same interval by interval through setup_split_optim_problem (12h, d, 2d); (b) on every 4th case the optimal values are equal; (steps) grids with unequal steps (daily steps across a "
         "DST switch, calendar months): Timegrid.dt = real elapsed time and the per-step bounds of contract, transport "
-        "and storage equal rate x dt_t, so that totals equal rate x elapsed time. Non-trivial: (units) the "
+        "and storage equal rate x dt_t, so that totals equal rate x elapsed time; running costs of a plant per step = rate x dt_t. Non-trivial: (units) the "
         "portfolio contains >= 1 rate and (>= 1 duration parameter or wacc != 0 or a take); (steps) the grid has >= "
         "2 distinct step lengths. Distinct = distinct spec hash.")
 ASSUMPTIONS = ["profiles are given with ramp_freq = grid frequency (otherwise their number of steps depends on the unit by definition)",
@@ -66,7 +66,7 @@ def _steps(draw):
                                          ("2021-11-06", "America/New_York"), ("2021-03-27", "Europe/London")]))
         g = {"start": date + " 00:00", "T": draw(st.integers(2, 5)), "freq": "d", "mtu": draw(st.sampled_from(["h", "d", "min"])),
              "tz": tz}
-    cls = draw(st.sampled_from(["simple", "transport", "storage", "coarse", "coarse"]))
+    cls = draw(st.sampled_from(["simple", "transport", "storage", "coarse", "coarse", "plant_running"]))
     cx = gen.Cx(g, ["n0", "n1"], {"p0": [1.0] * g["T"]})
     if cls == "coarse":
         if kind == "month":
@@ -78,6 +78,10 @@ def _steps(draw):
         a["extra_costs"] = 0.0
         a["wacc"] = 0.0
         a["freq"] = "2d"
+    elif cls == "plant_running":
+        # per-time costs: a plant with on-variables and running costs per main time unit
+        a = {"type": "plant", "name": "a0", "nodes": ["n0"], "price": None, "min_cap": 1.0, "max_cap": 2.0, "extra_costs": 0.0,
+             "wacc": 0.0, "running_costs": draw(st.sampled_from([0.5, 2.0, 3.0])), "start_costs": 0.0}
     else:
         a = gen.draw_asset(draw, cx, cls, "a0")
     a["start"] = a["end"] = None
@@ -240,6 +244,23 @@ def check_steps(spec, out):
             if set(got) != set(exp) or any(abs(got[t] - exp[t]) > 1e-9 for t in exp):
                 out.fail("coarse step %d: shares of the grid steps %s, expected step length / coarse length %s" % (j, got, exp))
         out.nontrivial = len(set(np.round(dt[: 2 * nco], 9))) >= 2
+        return
+    if a["type"] == "plant":
+        mp = op.mapping
+        on = mp[mp["var_name"] == "bool_on"]
+        on = on[~on.index.duplicated(keep="first")]
+        if len(on) != T:
+            return out.fail("plant: %d on-variables for %d steps" % (len(on), T))
+        got = np.asarray(op.c, float)[on.index.values.astype(int)][np.argsort(on["time_step"].values.astype(int))]
+        exp = a["running_costs"] * dt
+        if not np.allclose(got, exp, rtol=1e-9, atol=1e-12):
+            out.fail("running costs per step %s are not rate x real step length %s" % (got, exp))
+        d = mp[(mp["var_name"] == "disp")]
+        d = d[~d.index.duplicated(keep="first")]
+        ud = np.asarray(op.u, float)[d.index.values.astype(int)][np.argsort(d["time_step"].values.astype(int))]
+        if not np.allclose(ud, a["max_cap"] * dt, rtol=1e-9, atol=1e-12):
+            out.fail("plant: dispatch limits %s are not capacity x real step length %s" % (ud, a["max_cap"] * dt))
+        out.nontrivial = len(set(np.round(dt, 9))) >= 2
         return
     if a["type"] == "simple":
         lo, hi = a["min_cap"] * dt, a["max_cap"] * dt
